@@ -237,7 +237,7 @@ impl Property for C18 {
                 let pat = pats[rng.below(pats.len() as u64) as usize].to_string();
                 let fault = match scenario {
                     "put-fails-once" => Fault::PutFailsOnce { pat, attempt: rng.range(1, 3) as u32 },
-                    "put-fails-always" => Fault::PutFailsAlways { pat: ["d/", "nun.metadata", "d/#after-removal"][rng.below(3) as usize].to_string() },
+                    "put-fails-always" => Fault::PutFailsAlways { pat: ["d/", "nun.metadata", if strategy() == "s3_patition" { ".nun#after-removal" } else { "d/#after-removal" }][rng.below(3) as usize].to_string() },
                     "get-fails-once" => Fault::GetFailsOnce { pat },
                     "put-fails-first" => Fault::PutFailsFirst { pat, n: rng.range(3, 5) as u32 },
                     "get-fails-always" => Fault::GetFailsAlways { pat: ["nun.metadata", ".nun", "nun.keys", "/"][rng.below(4) as usize].to_string() },
